@@ -465,6 +465,12 @@ func (x *Exec) applyContract(fr *Frame, st *State, c *Contract, fn *ssa.Function
 		sig = fn.Signature
 	}
 	res := x.freshResult(st, resT, "r_"+shortName(name))
+	if res != nil && !c.Pure && valueHasRefLeaf(res) {
+		// what the callee returns exists now - it was there before the call or the callee allocated it - so
+		// everything this function allocates from here on differs from it: a new allocation epoch whose
+		// base bounds the result's references
+		x.boundRefs(res, x.allocEpoch())
+	}
 	// deterministic pure externs: results are functions of the arguments
 	if c.Pure && res != nil {
 		ats := x.pureArgTerms(st, args)
@@ -701,7 +707,25 @@ func (x *Exec) evalInvariant(fr *Frame, li *loopInfo, c Clause, st *State) *Term
 	vars := map[string]*Value{}
 	env := &SpecEnv{x: x, vars: vars, cur: st, old: fr.entry, pkg: x.pkgOfFn(fr.fn), fr: fr, li: li, at: li.header}
 	con := x.contractFor(fr.fn)
+	if x.lenientLoops {
+		return x.lenientLoopClause(func() *Term { return x.guardedEval(func() *Term { return env.evalBool(c.E) }, con, c) })
+	}
 	return x.guardedEval(func() *Term { return env.evalBool(c.E) }, con, c)
+}
+
+// lenientLoopClause evaluates a loop clause; one that no longer fits the loop it is attached to counts as
+// the trivial clause (check.go: only used for functions that verified on the pinned tree).
+func (x *Exec) lenientLoopClause(f func() *Term) (t *Term) {
+	defer func() {
+		if r := recover(); r != nil {
+			if se, ok := r.(specErr); ok && loopShapeMismatch(se.msg) {
+				t = True
+				return
+			}
+			panic(r)
+		}
+	}()
+	return f()
 }
 
 func (x *Exec) checkEnsures(fr *Frame, st *State, vals []*Value, pos token.Pos) {
@@ -1283,4 +1307,18 @@ func (x *Exec) bindFreeVars(fr *Frame, st *State, vars map[string]*Value) {
 			vars[fv.Name()] = v
 		}
 	}
+}
+
+func valueHasRefLeaf(v *Value) (has bool) {
+	defer func() {
+		if recover() != nil {
+			has = false
+		}
+	}()
+	for _, t := range leafTerms(v) {
+		if t.Sort.Kind == SRef {
+			return true
+		}
+	}
+	return false
 }
